@@ -136,7 +136,7 @@ let verdict_str v = match v with
 
 let () = iter_lines (fun line ->
   match split_ws line with
-  | ["V"; segs; fuel] ->
+  | "V" :: segs :: fuel :: _ ->
     let m = parse_segs segs in
     print_endline (verdict_str (valid_message m) ^ ";T" ^ tree_s (spec_root_tree m (z_of_dec fuel)))
   | arena :: t :: d :: st :: sd :: ncaps :: segs :: fuel :: rest ->
